@@ -1,7 +1,7 @@
 CONSTANT Tier = "d0"
 CONSTANT Coerce = FALSE
 CONSTANT Deviations = {}
-CONSTANT SchemaGaps = {"flattened", "mapkeys", "discriminated"}
+CONSTANT SchemaGaps = {"flattened", "mapkeys", "discriminated", "patoverlap"}
 CONSTANT VocabularyGaps = {}
 SPECIFICATION Spec
 INVARIANT ResultShape
